@@ -5,7 +5,10 @@ pointer-wrapper models coq/C26/C26_Ptr.v.  Tie, checked on every run: the models
 against the real Array_<T> / CloneOnWritePtr / ClonePtr / ReferencePtr / ResetOnCopy / ReinitOnCopy compiled
 from /repo on the same random operation sequences; outputs are compared exactly after every operation
 (contents, size, capacity, constructor and destructor calls made by the operation, live objects; std::vector
-as the reference for the abstract sequence)."""
+as the reference for the abstract sequence).
+Array.h carries the isOwnElement repair (commit 91dbee05): the model variant guard=true is used, own-element value
+arguments are part of the property, and the six former defect witnesses corpus/C26/w*.alias are regression cases that
+must give the std::vector result (a failure is reported under an impl:repair-incomplete-* key, i.e. as a VIOLATION)."""
 import os, sys, re
 from vlib import *
 
@@ -412,3 +415,8 @@ def asan_part(ctx):
         m = re.search(r'ERROR: AddressSanitizer: ([\w-]+)', e)
         res[w] = {'rc': rc, 'asan': m.group(1) if m else None, 'stdout': o.strip()[:200]}
     ctx.extra['asan_witnesses'] = res
+    if GUARD:       # with the repair in place the witnesses must be clean and equal to std::vector
+        for w, r in res.items():
+            if r['asan'] or 'same=1' not in r['stdout']:
+                ctx.report('impl:asan-' + w, 'own-element witness %s still fails with the isOwnElement repair: %s' % (w, r),
+                           {'replay_cmd': '%s %s' % (exe, w), 'result': r})
